@@ -65,13 +65,34 @@ def determinism(args):
         a = _digests(args.repo, prof.name, seeds, 8)
         b = _digests(args.repo, prof.name, list(reversed(seeds)), 16)
         diff = [s for s in seeds if a.get(s) != b.get(s)]
-        report[prop] = {"seeds": n, "mismatch": len(diff), "wall_s": round(time.time() - t0, 1)}
+        # (b) fork epochs vs genuinely fresh interpreters, (c) schedules independent of the worker's hash seed
+        sub = seeds[: max(4, n // 6)]
+        pool = O.Pool(args.repo, 16)
+        try:
+            first = O.batch(pool, prof.name, sub, "quick", 3600, stop_on_violation=False)
+            by = {r["seed"]: r for r in first}
+            rep_fresh = {s: {"params": dict(by[s]["params"], fresh_epochs=True), "steps": by[s]["steps"]} for s in sub}
+            fresh = O.batch(pool, prof.name, sub, "quick", 3600, stop_on_violation=False, replays=rep_fresh)
+            rep_hash = {s: {"params": by[s]["params"], "steps": None, "force_hash": (int(by[s]["hash_seed"]) + 3) % 8} for s in sub}
+            other = O.batch(pool, prof.name, sub, "quick", 3600, stop_on_violation=False,
+                            replays={s: {"force_hash": v["force_hash"], "generate": True} for s, v in rep_hash.items()})
+        finally:
+            pool.close()
+        fdiff = [r["seed"] for r in fresh if r.get("harness_error") or r["digest"] != by[r["seed"]]["digest"]]
+        hdiff = [r["seed"] for r in other if r.get("harness_error") or
+                 json.dumps(r["steps"], sort_keys=True) != json.dumps(by[r["seed"]]["steps"], sort_keys=True)]
+        report[prop] = {"seeds": n, "mismatch": len(diff), "fresh_interpreter_seeds": len(sub), "fresh_interpreter_mismatch": len(fdiff),
+                        "other_hash_seed_schedule_mismatch": len(hdiff), "wall_s": round(time.time() - t0, 1)}
+        if fdiff or hdiff:
+            rc = 2
+            print("DETERMINISM-FAILURE %s fresh-interpreter mismatch %s / schedule depends on hash seed %s" % (prop, fdiff[:3], hdiff[:3]))
         if diff:
             rc = 2
             s = diff[0]
             print("DETERMINISM-FAILURE %s seed=%s\n  A=%s\n  B=%s" % (prop, s, a.get(s)[:2], b.get(s)[:2]))
         else:
-            print("determinism ok: %s %d seeds x2 (8 and 16 workers, reversed order)" % (prop, n))
+            print("determinism ok: %s %d seeds x2 (8 and 16 workers, reversed order); %d seeds fork==fresh interpreter: %s; schedule independent of hash seed: %s"
+                  % (prop, n, len(sub), not fdiff, not hdiff))
     os.makedirs(os.path.join(O.VERIF, "evidence"), exist_ok=True)
     with open(os.path.join(O.VERIF, "evidence", "selftest_determinism.json"), "w") as f:
         json.dump(report, f, indent=1, sort_keys=True)
